@@ -56,6 +56,9 @@ package splitcarfetcher
 // Invariant: while pieces remain (rangeidx0 < len) the walk is on track: off == old(off)+totalN and the next piece starts
 // at or before off (so `continue` is never taken); once all pieces are consumed without break, the last one was short
 // with io.EOF (reachedEnd).
+// exactPieces(m): every piece behaves like a file (faithful) and every piece but the last holds exactly its declared size.
+//@ spec func exactPieces(m *MultiReaderAt) bool = (forall t int :: 0 <= t && t < len(m.offsets) ==> faithful(m.readers[t])) && (forall t int :: 0 <= t && t+1 < len(m.offsets) ==> fsize(m.readers[t]) == int(m.offsets[t+1]) - int(m.offsets[t]))
+
 //@ func (*MultiReaderAt) ReadAt
 //@   mode int
 //@   requires validMRA(m) && off >= 0 && int(off) + len(p) <= 9223372036854775807
@@ -65,6 +68,9 @@ package splitcarfetcher
 //@   ensures totalN > 0 ==> int(off) + totalN <= int(m.offsets[len(m.offsets)-1]) + fsize(m.readers[len(m.offsets)-1])
 //@   ensures err == io.EOF ==> totalN < len(p) && int(off) + totalN >= int(m.offsets[len(m.offsets)-1])
 //@   ensures err == nil ==> totalN == len(p)
+//@   # completeness (C16: exactly the concatenation for ANY sizes, offsets and lengths; EOF only at the true end): over pieces
+//@   # that are files of exactly their declared sizes, a read that lies inside the whole succeeds
+//@   ensures exactPieces(m) && int(off) + len(p) <= int(m.offsets[len(m.offsets)-1]) + fsize(m.readers[len(m.offsets)-1]) ==> err == nil
 //@   loop 0 invariant 0 <= rangeidx0 && rangeidx0 <= len(m.offsets)
 //@   loop 0 invariant fsize(m.readers[len(m.offsets)-1]) >= 0 && (forall t int :: 0 <= t && t < len(m.offsets) ==> 0 <= m.offsets[t] && m.offsets[t] <= m.offsets[len(m.offsets)-1])
 //@   loop 0 invariant bufOffset == totalN && remaining == len(p) - totalN && 0 <= totalN && totalN <= len(p) && 0 <= remaining && remaining <= len(p) && len(p) <= 72057594037927936 && totalN <= 72057594037927936 && remaining <= 72057594037927936
@@ -75,6 +81,7 @@ package splitcarfetcher
 //@   loop 0 invariant rangeidx0 == len(m.offsets) ==> remaining > 0 && m.offsets[len(m.offsets)-1] <= off
 //@   loop 0 invariant rangeidx0 < len(m.offsets) ==> m.offsets[rangeidx0] <= off && int(off) == int(old(off)) + totalN
 //@   loop 0 invariant rangeidx0 < len(m.offsets) ==> forall x int :: x >= int(off) ==> catAt(m, x, 0) == catAt(m, x, rangeidx0)
+//@   loop 0 invariant exactPieces(m) && int(old(off)) + len(p) <= int(m.offsets[len(m.offsets)-1]) + fsize(m.readers[len(m.offsets)-1]) ==> rangeidx0 < len(m.offsets)
 //@   loop 0 use forall x int :: unfold(catAt(m, x, rangeidx0))
 
 // ---- remote piece reads (C17: a short remote answer is an error, never padded, never cached as success) ----
